@@ -235,6 +235,16 @@ class ClockShim:
         def now(cls, tz=None):
             return ClockShim.now
 
+        @classmethod
+        def utcfromtimestamp(cls, ts):
+            if isinstance(ts, Sym):
+                # seconds since the epoch (possibly fractional) -> instant in integer microseconds
+                us = ts * 1000000
+                if us.dp not in (0,):
+                    us = core.ctx().round(us, 0)
+                return SymTime(us.n)
+            return _dt.datetime.utcfromtimestamp(ts)
+
 
 FLOAT_MODULES = None  # all flumine modules
 
